@@ -7,9 +7,10 @@ CONSTANTS
     Wraps = {"bare"}
     LeafSel = "core"
     FullValues = FALSE
-    Kinds = {"s", "i", "b", "l", "ps", "pi", "ns", "sd", "nid", "nbd", "psd", "pfd"}
+    Kinds = {"s", "i", "b", "l", "ps", "pi", "ns", "sd", "nid", "nbd", "psd", "pfd", "rq", "rqn"}
     MaxFields = 3
     Vias = {"direct", "pipe", "http"}
     Witness = TRUE
+    ReqPayloads = {"garbage", "empty", "null", "ipc_equal", "ipc_equal_g", "ipc_retyped", "ipc_nobatch"}
 VIEW View
 CHECK_DEADLOCK FALSE
